@@ -310,6 +310,7 @@ func LemmaToggleRemoval(s string, a, b int) {}
 //@   use call removeGroup LemmaFlagGroupClosed(result, location[0], location[1])
 //@   use loop 0 LemmaToggleRemovalAll(result)
 //@   ensures[C02] printable: implies(SpecPrintable(input), SpecPrintable(r))
+//@   checks[C02] the-scan-for-flag-groups-ran-to-the-end: called(firstUnescapedMatch) && len(resultOf(firstUnescapedMatch, 0)) == 0 && argOf(firstUnescapedMatch, 1) == r
 //@   loop 0 invariant OpaquePrinterShaped(result)
 //@   loop 0 invariant[C02] implies(SpecPrintable(input), SpecPrintable(result))
 //@   loop 0 decreases len(result)
@@ -401,10 +402,10 @@ func SpecPrintable(s string) bool { return utils.SpecPrintableU(s) }
 // assemble: scanner protocol (C17); the start pattern has two groups, so procline[2:] has
 // one element (startPreprocessor's precondition).
 //@ contract Operator.assemble
-//@   tags C17 C19 C16
+//@   tags C17 C19 C16 C10
 //@   opt scan-complete C17
 //@   results r err
-//@   loop 0 body[C16] every-processor-start-reaches-the-name-check: implies(reMatch(regex.ProcessorStartRegex, line), called(startPreprocessor) && argOf(startPreprocessor, 0) == reGroup(regex.ProcessorStartRegex, line, 1))
+//@   loop 0 body[C16,C10] every-processor-start-reaches-the-name-check: implies(reMatch(regex.ProcessorStartRegex, line), called(startPreprocessor) && argOf(startPreprocessor, 0) == reGroup(regex.ProcessorStartRegex, line, 1))
 //@   modifies processorStack, processor, a.lines, a.groupReplacementStringBuilder
 
 // ---- C02 (E): the patterns the code searches for cover every flag group / flag toggle the
@@ -425,9 +426,10 @@ func OpaqueParses(s string) bool { _, err := rassemble.Join([]string{s}); return
 // expression (e.g. through a prefix or suffix line) is fatal here, so the later clean-up
 // passes never see an unbalanced expression.
 //@ contract Operator.runSimplificationAssembly
-//@   tags C19 C16
+//@   tags C19 C16 C02
 //@   results r
 //@   ensures validated: OpaqueParses(r)
+//@   checks[C02,C16] a-text-that-does-not-parse-is-fatal: called(Join) && resultOf(Join, 1) == nil && r == resultOf(Join, 0)
 
 // ---- C19: zero-annotation safety sweep over the rest of the operators package -------------------
 //@ contract ProcessorStack.push
